@@ -7,58 +7,78 @@ From TV Require Import Model.Datetime Model.Numbers Model.Tree Model.Build.
 From TV Require Import Proofs.DefsEquivSpec.
 Require Import Lia.
 
-(* ---- statements and result of an abstract tree ---------------------------------------------------------- *)
-Definition kv_stmts (l : list (bytes * anode)) : list (stmt aval) :=
-  flat_map (fun kv => match snd kv with AVal a => [SKeyVal [fst kv] a] | _ => [] end) l.
+(* ---- statements and result of an abstract tree ----------------------------------------------------------
+   The tree as the printer sees it: a table whose `[header]` is left out (`hid`: marked implicit and without
+   key/value lines of its own) is only mentioned by the headers of what is below it. *)
+Inductive snode : Type :=
+| SVal (a : aval)
+| STbl (hid : bool) (l : list (bytes * snode))
+| SAot (ls : list (list (bytes * snode))).
 
-Fixpoint node_stmts (P : list bytes) (n : anode) : list (stmt aval) :=
+Fixpoint forget (n : snode) : anode :=
   match n with
-  | AVal _ => []
-  | ATbl l => SHeader P :: (kv_stmts l ++ flat_map (fun kv => node_stmts (P ++ [fst kv]) (snd kv)) l)
-  | AAot ls =>
+  | SVal a => AVal a
+  | STbl _ l => ATbl (map (fun kv => (fst kv, forget (snd kv))) l)
+  | SAot ls => AAot (map (map (fun kv => (fst kv, forget (snd kv)))) ls)
+  end.
+Definition forget_entries (l : list (bytes * snode)) : list (bytes * anode) := map (fun kv => (fst kv, forget (snd kv))) l.
+
+Definition kv_stmts (l : list (bytes * snode)) : list (stmt aval) :=
+  flat_map (fun kv => match snd kv with SVal a => [SKeyVal [fst kv] a] | _ => [] end) l.
+
+Fixpoint node_stmts (P : list bytes) (n : snode) : list (stmt aval) :=
+  match n with
+  | SVal _ => []
+  | STbl hid l => (if hid then [] else [SHeader P])
+                  ++ (kv_stmts l ++ flat_map (fun kv => node_stmts (P ++ [fst kv]) (snd kv)) l)
+  | SAot ls =>
     flat_map (fun l => SArrHeader P :: (kv_stmts l ++ flat_map (fun kv => node_stmts (P ++ [fst kv]) (snd kv)) l)) ls
   end.
-Definition body_stmts (P : list bytes) (l : list (bytes * anode)) : list (stmt aval) :=
+Definition body_stmts (P : list bytes) (l : list (bytes * snode)) : list (stmt aval) :=
   kv_stmts l ++ flat_map (fun kv => node_stmts (P ++ [fst kv]) (snd kv)) l.
 
-Definition kv_res (l : list (bytes * anode)) : stree aval :=
-  flat_map (fun kv => match snd kv with AVal a => [(fst kv, NVal a)] | _ => [] end) l.
+Definition kv_res (l : list (bytes * snode)) : stree aval :=
+  flat_map (fun kv => match snd kv with SVal a => [(fst kv, NVal a)] | _ => [] end) l.
 
-Fixpoint node_res (n : anode) : list (node aval) :=
+Fixpoint node_res (n : snode) : list (node aval) :=
   match n with
-  | AVal _ => []
-  | ATbl l => [NTab KHeader (kv_res l ++ flat_map (fun kv => map (fun r => (fst kv, r)) (node_res (snd kv))) l)]
-  | AAot [] => []
-  | AAot ls => [NAot (map (fun l => kv_res l ++ flat_map (fun kv => map (fun r => (fst kv, r)) (node_res (snd kv))) l) ls)]
+  | SVal _ => []
+  | STbl hid l => [NTab (if hid then KSuper else KHeader)
+                        (kv_res l ++ flat_map (fun kv => map (fun r => (fst kv, r)) (node_res (snd kv))) l)]
+  | SAot [] => []
+  | SAot ls => [NAot (map (fun l => kv_res l ++ flat_map (fun kv => map (fun r => (fst kv, r)) (node_res (snd kv))) l) ls)]
   end.
-Definition body_res (l : list (bytes * anode)) : stree aval :=
+Definition body_res (l : list (bytes * snode)) : stree aval :=
   kv_res l ++ flat_map (fun kv => map (fun r => (fst kv, r)) (node_res (snd kv))) l.
 
-Lemma node_stmts_tbl P l : node_stmts P (ATbl l) = SHeader P :: body_stmts P l.
+Lemma node_stmts_tbl P hid l : node_stmts P (STbl hid l) = (if hid then [] else [SHeader P]) ++ body_stmts P l.
 Proof. reflexivity. Qed.
-Lemma node_stmts_aot P ls : node_stmts P (AAot ls) = flat_map (fun l => SArrHeader P :: body_stmts P l) ls.
+Lemma node_stmts_aot P ls : node_stmts P (SAot ls) = flat_map (fun l => SArrHeader P :: body_stmts P l) ls.
 Proof. reflexivity. Qed.
-Lemma node_res_tbl l : node_res (ATbl l) = [NTab KHeader (body_res l)].
+Lemma node_res_tbl hid l : node_res (STbl hid l) = [NTab (if hid then KSuper else KHeader) (body_res l)].
 Proof. reflexivity. Qed.
-Lemma node_res_aot ls : node_res (AAot ls) = match ls with [] => [] | _ => [NAot (map body_res ls)] end.
+Lemma node_res_aot ls : node_res (SAot ls) = match ls with [] => [] | _ => [NAot (map body_res ls)] end.
 Proof. destruct ls; reflexivity. Qed.
 
-(* well-formed: the keys of every table are distinct *)
-Inductive wf_node : anode -> Prop :=
-| WV a : wf_node (AVal a)
-| WT l : NoDup (map fst l) -> Forall wf_node (map snd l) -> wf_node (ATbl l)
-| WA ls : Forall (fun l => NoDup (map fst l) /\ Forall wf_node (map snd l)) ls -> wf_node (AAot ls).
-Definition wf_entries (l : list (bytes * anode)) : Prop := NoDup (map fst l) /\ Forall wf_node (map snd l).
+(* well-formed: the keys of every table are distinct; a table without header has no key/value line and
+   something is printed below it *)
+Inductive wf_node : snode -> Prop :=
+| WV a : wf_node (SVal a)
+| WT hid l : NoDup (map fst l) -> Forall wf_node (map snd l) ->
+             (hid = true -> kv_stmts l = [] /\ body_stmts [] l <> []) -> wf_node (STbl hid l)
+| WA ls : Forall (fun l => NoDup (map fst l) /\ Forall wf_node (map snd l)) ls -> wf_node (SAot ls).
+Definition wf_entries (l : list (bytes * snode)) : Prop := NoDup (map fst l) /\ Forall wf_node (map snd l).
 
-Lemma wf_node_strong (Pn : anode -> Prop) :
-  (forall a, Pn (AVal a)) ->
-  (forall l, NoDup (map fst l) -> Forall Pn (map snd l) -> Pn (ATbl l)) ->
-  (forall ls, Forall (fun l => NoDup (map fst l) /\ Forall Pn (map snd l)) ls -> Pn (AAot ls)) ->
+Lemma wf_node_strong (Pn : snode -> Prop) :
+  (forall a, Pn (SVal a)) ->
+  (forall hid l, NoDup (map fst l) -> Forall wf_node (map snd l) -> Forall Pn (map snd l) ->
+                 (hid = true -> kv_stmts l = [] /\ body_stmts [] l <> []) -> Pn (STbl hid l)) ->
+  (forall ls, Forall (fun l => NoDup (map fst l) /\ Forall Pn (map snd l)) ls -> Pn (SAot ls)) ->
   forall n, wf_node n -> Pn n.
 Proof.
-  intros H1 H2 H3. fix IH 2. intros n Hn. destruct Hn as [a | l Hnd Hl | ls Hls].
+  intros H1 H2 H3. fix IH 2. intros n Hn. destruct Hn as [a | hid l Hnd Hl Hh | ls Hls].
   - apply H1.
-  - apply H2; [exact Hnd|]. induction Hl; constructor; [apply IH; assumption|assumption].
+  - apply H2; [exact Hnd|exact Hl| |exact Hh]. induction Hl; constructor; [apply IH; assumption|assumption].
   - apply H3. induction Hls as [|l ls [Hnd Hl] _ IHls]; constructor; [|exact IHls].
     split; [exact Hnd|]. induction Hl; constructor; [apply IH; assumption|assumption].
 Qed.
@@ -71,7 +91,7 @@ Definition shift (P : list bytes) (s : stmt aval) : stmt aval :=
   | SKeyVal p v => SKeyVal p v
   end.
 
-Lemma kv_stmts_shift P l : map (shift P) (kv_stmts l) = kv_stmts l.
+Lemma kv_stmts_shift P (l : list (bytes * snode)) : map (shift P) (kv_stmts l) = kv_stmts l.
 Proof.
   unfold kv_stmts. induction l as [|[k n] l IH]; [reflexivity|]. cbn [flat_map fst snd].
   destruct n; cbn [app map shift]; rewrite IH; reflexivity.
@@ -79,9 +99,10 @@ Qed.
 
 Lemma node_stmts_shift : forall n P Q, node_stmts (P ++ Q) n = map (shift P) (node_stmts Q n).
 Proof.
-  fix IH 1. intros [a|l|ls] P Q.
+  fix IH 1. intros [a|hid l|ls] P Q.
   - reflexivity.
-  - rewrite !node_stmts_tbl. cbn [map shift]. f_equal. unfold body_stmts. rewrite map_app, kv_stmts_shift. f_equal.
+  - rewrite !node_stmts_tbl. rewrite map_app. f_equal; [destruct hid; reflexivity|].
+    unfold body_stmts. rewrite map_app, kv_stmts_shift. f_equal.
     induction l as [|[k n] l IHl]; [reflexivity|]. cbn [flat_map fst snd]. rewrite map_app, <- IHl. f_equal.
     rewrite <- app_assoc. apply IH.
   - rewrite !node_stmts_aot. induction ls as [|l ls IHls]; [reflexivity|]. cbn [flat_map map shift]. rewrite map_app, <- IHls.
@@ -241,9 +262,10 @@ Section Fold.
 
   Lemma node_stmts_nonempty_hdr : forall n P, P <> [] -> Forall hdr_nonempty (node_stmts P n).
   Proof.
-    fix IH 1. intros [a|l|ls] P HP.
+    fix IH 1. intros [a|hid l|ls] P HP.
     - constructor.
-    - rewrite node_stmts_tbl. constructor; [exact HP|]. unfold body_stmts. apply Forall_app. split.
+    - rewrite node_stmts_tbl. apply Forall_app. split; [destruct hid; repeat constructor; exact HP|].
+      unfold body_stmts. apply Forall_app. split.
       + unfold kv_stmts. clear. induction l as [|[k n] l IHl]; [constructor|]. cbn [flat_map fst snd].
         apply Forall_app. split; [destruct n; repeat constructor|exact IHl].
       + induction l as [|[k n] l IHl]; [constructor|]. cbn [flat_map fst snd]. apply Forall_app. split; [|exact IHl].
@@ -266,11 +288,11 @@ Section Fold.
   Qed.
 
   (* what a node contributes below key k of the table C *)
-  Definition node_claim (n : anode) : Prop :=
+  Definition node_claim (n : snode) : Prop :=
     forall (k : bytes) (C : T) (cur : list bytes),
-      (match n with AVal _ => True | _ => sget C k = None end) ->
+      (match n with SVal _ => True | _ => sget C k = None end) ->
       exists cur', spec_fold false (C, cur) (node_stmts [k] n) = ROk (C ++ map (fun r => (k, r)) (node_res n), cur').
-  Definition body_claim (l : list (bytes * anode)) : Prop :=
+  Definition body_claim (l : list (bytes * snode)) : Prop :=
     forall C : T, (forall k, In k (map fst l) -> sget C k = None) ->
       exists cur', spec_fold false (C, []) (body_stmts [] l) = ROk (C ++ body_res l, cur').
 
@@ -283,8 +305,8 @@ Section Fold.
 
   (* the sub-tables of a table, given the claim for each of them *)
   Lemma subs_fold l : NoDup (map fst l) -> Forall node_claim (map snd l) -> forall (C : T) cur,
-    (forall kv, In kv l -> match snd kv with AVal _ => True | _ => sget C (fst kv) = None end) ->
-    (forall k, In k (map fst C) -> ~ In k (map fst l) \/ exists a, In (k, AVal a) l) ->
+    (forall kv, In kv l -> match snd kv with SVal _ => True | _ => sget C (fst kv) = None end) ->
+    (forall k, In k (map fst C) -> ~ In k (map fst l) \/ exists a, In (k, SVal a) l) ->
     exists cur', spec_fold false (C, cur) (flat_map (fun kv => node_stmts [fst kv] (snd kv)) l)
                  = ROk (C ++ flat_map (fun kv => map (fun r => (fst kv, r)) (node_res (snd kv))) l, cur').
   Proof.
@@ -316,7 +338,7 @@ Section Fold.
     - intros [k n] Hkv. cbn [fst snd]. destruct n as [a|sub|ls]; [exact I| |];
         (apply sget_app_none; [apply Hd; apply in_map with (f := fst) in Hkv; exact Hkv|];
          apply sget_none_notin; intro Hin;
-         assert (Hv : exists a, In (k, AVal a) l)
+         assert (Hv : exists a, In (k, SVal a) l)
            by (clear - Hin; unfold kv_res in Hin; induction l as [|[k0 n0] l IHl]; [contradiction|];
                cbn [flat_map fst snd] in Hin; rewrite map_app in Hin; apply in_app_or in Hin as [Hin|Hin];
                [destruct n0; cbn in Hin; try contradiction; destruct Hin as [<-|[]]; eexists; left; reflexivity
@@ -346,7 +368,7 @@ Section Nodes.
   Local Notation T := (stree aval).
 
   (* a body below a freshly defined table / array element, by framing *)
-  Lemma body_under (k : bytes) (l : list (bytes * anode)) (C1 C2 : T) (mk : T -> T) :
+  Lemma body_under (k : bytes) (l : list (bytes * snode)) (C1 C2 : T) (mk : T -> T) :
     body_claim l ->
     (forall (F : T -> res (T * list bytes)), at_path_x [k] F C1 = rbind (F []) (fun cx => ROk (mk (fst cx), snd cx))) ->
     mk [] = C1 -> mk (body_res l) = C2 ->
@@ -364,19 +386,58 @@ Section Nodes.
   Lemma spush_app (C : T) k n : spush C k n = C ++ [(k, n)].
   Proof. reflexivity. Qed.
 
+  (* a run of statements that begins with a header does not look at the current section *)
+  Definition starts_hdr (l : list (stmt aval)) : Prop :=
+    match l with SHeader _ :: _ | SArrHeader _ :: _ => True | _ => False end.
+
+  Lemma spec_fold_cur_irrelevant l (t : T) c1 c2 : starts_hdr l -> spec_fold false (t, c1) l = spec_fold false (t, c2) l.
+  Proof. destruct l as [|[p|p|p v] l]; cbn [starts_hdr]; try contradiction; intros _; reflexivity. Qed.
+
+  Lemma starts_hdr_shift P l : starts_hdr l -> starts_hdr (map (shift P) l).
+  Proof. destruct l as [|[p|p|p v] l]; cbn; auto. Qed.
+
+  Lemma node_stmts_head : forall n, wf_node n -> forall P, node_stmts P n = [] \/ starts_hdr (node_stmts P n).
+  Proof.
+    apply (wf_node_strong (fun n => forall P, node_stmts P n = [] \/ starts_hdr (node_stmts P n))).
+    - intros a P. left. reflexivity.
+    - intros hid l _ _ IH Hh P. rewrite node_stmts_tbl. destruct hid; [|right; exact I].
+      destruct (Hh eq_refl) as [Hkv _]. cbn [app]. unfold body_stmts. rewrite Hkv. cbn [app].
+      clear Hh Hkv. induction l as [|[k n] l IHl]; [left; reflexivity|].
+      cbn [map snd] in IH. inversion IH as [|? ? Hn Hl]; subst. cbn [flat_map fst snd].
+      destruct (Hn (P ++ [k])) as [E | Hs].
+      + rewrite E. cbn [app]. apply IHl, Hl.
+      + right. destruct (node_stmts (P ++ [k]) n) as [|[p|p|p v] r]; cbn in Hs |- *; try contradiction; exact I.
+    - intros ls _ P. rewrite node_stmts_aot. destruct ls as [|l ls]; [left; reflexivity|right; exact I].
+  Qed.
+
   Theorem node_claim_all : forall n, wf_node n -> node_claim n.
   Proof.
     apply wf_node_strong.
     - intros a k C cur _. exists cur. cbn. rewrite app_nil_r. reflexivity.
-    - intros l Hnd IH k C cur Hk. pose proof (body_of_nodes l Hnd IH) as Hb.
-      rewrite node_stmts_tbl, node_res_tbl. cbn [spec_fold].
-      assert (Estep : spec_step false (C, cur) (SHeader [k]) = ROk (spush C k (NTab KHeader []), [k])).
-      { cbn [spec_step]. change (unsnoc [k]) with (Some (@nil bytes, k)). cbn [at_path]. unfold def_table. rewrite Hk. reflexivity. }
-      rewrite Estep. cbn [rbind map].
-      apply (body_under k l _ _ (fun c => spush C k (NTab KHeader c)) Hb); [|reflexivity|reflexivity].
-      intro F. cbn [at_path_x]. rewrite (sget_spush_same _ _ _ Hk).
-      destruct (F []) as [[c1 x]| |]; cbn [rbind fst snd]; [|reflexivity|reflexivity].
-      rewrite (sset_spush _ _ _ _ Hk). reflexivity.
+    - intros hid l Hnd Hwf IH Hh k C cur Hk. pose proof (body_of_nodes l Hnd IH) as Hb.
+      rewrite node_stmts_tbl, node_res_tbl. destruct hid.
+      + (* no header: the table comes into being as a super-table of what is below it *)
+        destruct (Hh eq_refl) as [Hkv Hne]. cbn [app map].
+        assert (Hs : starts_hdr (body_stmts [k] l)).
+        { destruct (node_stmts_head (STbl true l) (WT true l Hnd Hwf Hh) [k]) as [E | Hs].
+          - rewrite node_stmts_tbl in E. cbn [app] in E. exfalso. apply Hne.
+            change [k] with ([k] ++ []) in E. rewrite body_stmts_shift in E.
+            destruct (body_stmts [] l); [reflexivity|discriminate E].
+          - rewrite node_stmts_tbl in Hs. exact Hs. }
+        rewrite (spec_fold_cur_irrelevant _ C cur [k] Hs).
+        destruct (Hb [] (fun _ _ => eq_refl)) as (cur1 & E1). cbn [app] in E1.
+        change [k] with ([k] ++ []) at 2. rewrite body_stmts_shift.
+        exists ([k] ++ cur1). change [k] with ([k] ++ []) at 1.
+        apply fold_frame; [apply body_stmts_nonempty_hdr|exact Hne|].
+        cbn [at_path_x]. rewrite Hk, E1. reflexivity.
+      + cbn [app spec_fold].
+        assert (Estep : spec_step false (C, cur) (SHeader [k]) = ROk (spush C k (NTab KHeader []), [k])).
+        { cbn [spec_step]. change (unsnoc [k]) with (Some (@nil bytes, k)). cbn [at_path]. unfold def_table. rewrite Hk. reflexivity. }
+        rewrite Estep. cbn [rbind map].
+        apply (body_under k l _ _ (fun c => spush C k (NTab KHeader c)) Hb); [|reflexivity|reflexivity].
+        intro F. cbn [at_path_x]. rewrite (sget_spush_same _ _ _ Hk).
+        destruct (F []) as [[c1 x]| |]; cbn [rbind fst snd]; [|reflexivity|reflexivity].
+        rewrite (sset_spush _ _ _ _ Hk). reflexivity.
     - intros ls IH k C cur Hk. rewrite node_stmts_aot, node_res_aot.
       assert (Hbs : Forall body_claim ls).
       { clear - IH. induction IH as [|l ls [Hnd Hl] _ IHls]; constructor; [apply body_of_nodes; assumption|exact IHls]. }
